@@ -2,7 +2,13 @@
 
 package sim
 
-import "runtime"
+import (
+	"os"
+	"strconv"
+	"runtime"
+	"runtime/debug"
+	_ "unsafe" // go:linkname
+)
 
 // RaceBuild reports whether the worker was built with the race detector.
 const RaceBuild = true
@@ -13,10 +19,47 @@ const RaceBuild = true
 func raceDisable() { runtime.RaceDisable() }
 func raceEnable()  { runtime.RaceEnable() }
 
-// drainPools empties every sync.Pool: the first GC moves pool contents to the
-// victim cache, the second drops it. Pools are an incidental synchroniser that
-// would otherwise transfer vector clocks between simulated threads.
+// poolCleanup is the function the garbage collector calls (with the world
+// stopped) to age every sync.Pool by one generation. The simulator calls it
+// twice at each context switch, which empties all pools: pools are an
+// incidental synchroniser that would otherwise transfer vector clocks between
+// simulated threads and hide races (DESIGN 3.5). The conditions it relies on
+// hold at that moment: every other goroutine of the process is parked on a
+// channel outside pool code, and the collector is switched off for the
+// duration of an episode (raceWorkerInit / betweenEpisodes), so it cannot run
+// its own clean-up concurrently.
+//
+//go:linkname poolCleanup sync.poolCleanup
+func poolCleanup()
+
 func drainPools() {
-	runtime.GC()
-	runtime.GC()
+	poolCleanup()
+	poolCleanup()
+}
+
+// raceWorkerInit switches the collector off; betweenEpisodes collects when
+// nothing of the simulation is running.
+func raceWorkerInit() {
+	if os.Getenv("VERIF_GCMODE") == "default" {
+		return
+	}
+	debug.SetGCPercent(-1)
+}
+
+var gcCounter int
+
+func betweenEpisodes() {
+	if os.Getenv("VERIF_GCMODE") == "default" {
+		return
+	}
+	gcCounter++
+	if n, _ := strconv.Atoi(os.Getenv("VERIF_GCEVERY")); n > 0 {
+		if gcCounter%n == 0 {
+			runtime.GC()
+		}
+		return
+	}
+	if gcCounter%8 == 0 {
+		runtime.GC()
+	}
 }
